@@ -1,9 +1,9 @@
 """C18 — Results depend only on explicit arguments, not on process history."""
 
-from .. import argbind, fx, state
+from .. import aliasmut, argbind, fx, state
 
 LEVEL = "other"
-TECHNIQUE = "global-state effect lints: enumeration of every read of the mutable global parameter object, cache-key vs builder read-set comparison, memo-site purity, memo identity, precision pinning, escape analysis of closures (no evaluator handed out for later use reads a parameter group); inventory of every write to module-level state with a parameter-dependency analysis of memo keys"
+TECHNIQUE = "global-state effect lints: enumeration of every read of the mutable global parameter object, cache-key vs builder read-set comparison, memo-site purity, memo identity, precision pinning, escape analysis of closures (no evaluator handed out for later use reads a parameter group); inventory of every write to module-level state with a parameter-dependency analysis of memo keys; package-wide may-alias lint (no in-place update of an array that may share storage with an operand or a cached object)"
 LEVEL_TEXT = (
     "Decides which functions read the mutable global parameter object (only the sanctioned resolver may), whether "
     "each FMM cache key contains every parameter its builder reads, whether memoised values of a space are computed "
@@ -13,7 +13,7 @@ LEVEL_TEXT = (
     "findings)."
 )
 LEVEL_NOTE = "Not decided: single- vs double-precision accuracy; equality with a fresh interpreter as an observation (needs execution)."
-EXPLANATION = "rules FX-GLOBAL-READ, FX-PARAM-SNAPSHOT, FX-PARAM-FORWARD, FX-CACHE-KEY, FX-MEMO, WEAKFORM-MEMO, PRECISION-PIN, FX-LATE-READ, FX-PROCESS-STATE, ARG-NAME-BINDING"
+EXPLANATION = "rules FX-GLOBAL-READ, FX-PARAM-SNAPSHOT, FX-PARAM-FORWARD, FX-CACHE-KEY, FX-MEMO, WEAKFORM-MEMO, PRECISION-PIN, FX-LATE-READ, FX-PROCESS-STATE, ALIAS-MUTATION, ARG-NAME-BINDING, ARG-FORWARDED"
 ASSUMPTIONS = ["GLOBAL_PARAMETERS is the only mutable module-level configuration object that affects numerical results (DEFAULT_* are read at construction through the same pattern)"]
 
 
@@ -27,4 +27,6 @@ def run(ctx):
     fx.late_reads(ctx)
     fx.assembler_plumbing(ctx)
     state.process_state(ctx)
+    aliasmut.alias_mutation(ctx)
     argbind.repo_argument_binding(ctx)
+    argbind.forwarded_optionals(ctx)
